@@ -281,6 +281,39 @@ pub fn run(tier: Tier) -> i32 {
         }
     }
 
+    // ---- branches that carry the SAME value (text): which branch a count takes is decided by the declaration, not by
+    // what the branches say - identical values are not a reason to look at a later branch first
+    for ty in [NumTy::I8, NumTy::U8] {
+        let (lo, hi) = ty.min_max();
+        let all: Vec<Num> = (lo..=hi).map(Num::I).collect();
+        let small = spec_alphabet(ty, &[(-1i128).max(lo), 0, 2], false);
+        let mut decls = vec![];
+        let mut k = 0usize;
+        for (i, a) in small.iter().enumerate() {
+            for (j, c) in small.iter().enumerate() {
+                for (l, e) in small.iter().enumerate() {
+                    k += 1;
+                    if tier == Tier::Quick && (i + 2 * j + 3 * l) % 4 != 0 {
+                        continue;
+                    }
+                    for (x, y) in [(0usize, 2usize), (0, 1), (1, 2)] {
+                        if (k + x + y) % 3 != 0 {
+                            continue;
+                        }
+                        let mut d = decl(Some(ty), &format!("{}s{k}", ty.name()), &[a.clone(), c.clone(), e.clone()], fbs[1 + k % 3], k % 16);
+                        let v = d.branches[x].value.clone();
+                        d.branches[y].value = v;
+                        decls.push(d);
+                    }
+                }
+            }
+        }
+        let nb: Vec<Num> = [lo, -1, 0, 1, 2, 3, hi].into_iter().filter(|x| *x >= lo && *x <= hi).map(Num::I).collect();
+        for c in decls.chunks(60) {
+            pack(Some(ty), c.to_vec(), &all, &nb, "same-value-branches", &mut jobs, &mut singles);
+        }
+    }
+
     // ---- wider integer types (+ implicit i32): boundary neighbourhoods and extremes ------------
     let wide: Vec<Option<NumTy>> = vec![None, Some(NumTy::I16), Some(NumTy::I32), Some(NumTy::I64), Some(NumTy::U16), Some(NumTy::U32), Some(NumTy::U64)];
     for ty in wide {
@@ -478,7 +511,7 @@ pub fn run(tier: Tier) -> i32 {
         rep.sample(json!({"single": p.describe()}));
     }
     let mut cov = serde_json::Map::new();
-    cov.insert("rule".into(), json!("i8/u8: every 1-branch declaration over the spec alphabet (exact number/string, a..b, a..=b, ..b, ..=b, a.., alternatives with |, list alternatives, whitespace) x 4 fallback forms x 3 syntaxes, every ordered 2-branch pair (thorough: 3-branch over a reduced alphabet); each accepted declaration is (1) evaluated from the parsed Range<T> structures for ALL 256 counts, (2) selected at parse time through one `$t(r,{count:n})` key per covered count (all 256 for 1-branch, boundary neighbourhood for 2/3-branch), (3) `{{ count }}` shown; wider ints (+implicit i32) and floats: same alphabets, counts = every value within +-2 (next_up/next_down for floats) of a bound plus type extremes; declarations with the fallback before the last branch or written twice (implicit and `_` forms, 4 types); three- and four-level reference chains over a range (u8, implicit i32, f32, i64) in which the middle key renames the count to `n` and has a plain variable of its own called `count`, and the outer keys pass `count` / `n` / both as literals, text or other variables (only the variable of that name is replaced; the range keeps following its renamed count); declarations the model rejects / leaves open and literal counts no branch contains are judged alone (must be Err, never panic); evaluations = (declaration, count) pairs + single projects; distinct_nontrivial = distinct declarations"));
+    cov.insert("rule".into(), json!("i8/u8: every 1-branch declaration over the spec alphabet (exact number/string, a..b, a..=b, ..b, ..=b, a.., alternatives with |, list alternatives, whitespace) x 4 fallback forms x 3 syntaxes, every ordered 2-branch pair (thorough: 3-branch over a reduced alphabet); each accepted declaration is (1) evaluated from the parsed Range<T> structures for ALL 256 counts, (2) selected at parse time through one `$t(r,{count:n})` key per covered count (all 256 for 1-branch, boundary neighbourhood for 2/3-branch), (3) `{{ count }}` shown; wider ints (+implicit i32) and floats: same alphabets, counts = every value within +-2 (next_up/next_down for floats) of a bound plus type extremes; declarations with the fallback before the last branch or written twice (implicit and `_` forms, 4 types); 3-branch declarations over a reduced alphabet in which two branches (adjacent or not) carry the same value; three- and four-level reference chains over a range (u8, implicit i32, f32, i64) in which the middle key renames the count to `n` and has a plain variable of its own called `count`, and the outer keys pass `count` / `n` / both as literals, text or other variables (only the variable of that name is replaced; the range keeps following its renamed count); declarations the model rejects / leaves open and literal counts no branch contains are judged alone (must be Err, never panic); evaluations = (declaration, count) pairs + single projects; distinct_nontrivial = distinct declarations"));
     cov.insert("exhaustive".into(), json!(true));
     cov.insert("key_locale_comparisons".into(), json!(*keys_total.lock().unwrap()));
     rep.finish(cov, &["Rust's str::parse::<T> and PartialOrd define what bounds mean", "empty or inverted ranges and fallbacks hidden inside count lists may be rejected or accepted (statement silent)"])
